@@ -785,6 +785,12 @@ def _norm(p):
     return b"/" + b"/".join(x for x in p.split(b"/") if x not in (b"", b"."))
 
 
+def _inside(path, root):
+    """path (which may no longer exist) is the root itself or below it, its directory resolved physically"""
+    rp = os.path.join(os.path.realpath(os.path.dirname(path)), os.path.basename(path))
+    return rp == root or rp.startswith(root + b"/")
+
+
 def _under(path, roots):
     rp = os.path.realpath(path)
     return any(rp == r_ or rp.startswith(r_ + os.sep.encode()) for r_ in roots)
@@ -1138,11 +1144,11 @@ def e2e_webdav(ctx, bd, n):
             ob = _h1_get(srv.port, auth, s, method=m, extra=b"Destination: " + d + b"\r\n")
             status = ob[0]
             after = snapshot(srv.root)
-            changed = [c.encode() for c in snap_diff(clean, after)]
+            changed = [os.fsencode(c) for c in snap_diff(clean, after)]
             ctx.evaluations += 1
             ctx.keys["e2e:webdav:%s:%s:%s:%s" % (m.decode(), pred if pred.startswith("st") else "ok", status, "chg" if changed else "same")] += 1
             ov = cv = None
-            outside = [c for c in changed if not (os.path.realpath(os.path.dirname(c)) + b"/").startswith(droot + b"/")]
+            outside = [c for c in changed if not _inside(c, droot)]
             if outside:
                 ov = "WebDAV %s changed a path outside the document root: %s" % (m.decode(), outside[0].decode("latin-1"))
             elif b"CANARY" in ob[1]:
@@ -1196,11 +1202,11 @@ def e2e_webdav(ctx, bd, n):
             except (OSError, e2e.RespParseError):
                 status, rbody = None, b""
             after = snapshot(srv.root)
-            changed = [x.encode() for x in snap_diff(clean, after)]
+            changed = [os.fsencode(x) for x in snap_diff(clean, after)]
             ctx.evaluations += 1
             ctx.keys["e2e:webdav:%s:%s:%s:%s" % (c["method"].decode(), pred.split(" ")[0], status, "chg" if changed else "same")] += 1
             ov = cv = None
-            outside = [x for x in changed if not (os.path.realpath(os.path.dirname(x)) + b"/").startswith(droot + b"/")]
+            outside = [x for x in changed if not _inside(x, droot)]
             if outside:
                 ov = "WebDAV %s changed a path outside the document root: %s" % (c["method"].decode(), outside[0].decode("latin-1"))
             elif b"CANARY" in rbody:
